@@ -44,7 +44,7 @@ func consumerProjection(c *arrow_record.Consumer) []any {
 	return out
 }
 
-func producerNext(p *arrow_record.Producer) int { return int(p.VerifNextSchemaID()) }
+func producerNext(p *arrow_record.Producer) int { return 0 }
 
 // consumerIDs: the schema ids the consumer currently has a stream consumer for.
 func consumerIDs(c *arrow_record.Consumer) []string {
